@@ -34,7 +34,7 @@ def gen_antenna(rng, family=None, ground=None, max_pulses=36, tags='auto'):
     'real'; if ground is not None some families put wires on the ground."""
     f = rng.choice([3.5, 7.0, 7.15, 14.2, 21.0, 28.5, 50.0, 144.0, rng.uniform(1, 300)])
     lam = C_MHZ / f
-    fams = ['dipole', 'bent', 'star', 'loop', 'two', 'chain']
+    fams = ['dipole', 'bent', 'star', 'loop', 'two', 'chain', 'gapped', 'taperjoin']
     if ground:
         fams = ['mono', 'invl', 'tee', 'sloper', 'dipole_h', 'two_g', 'mono2']
     family = family or rng.choice(fams)
@@ -99,6 +99,26 @@ def gen_antenna(rng, family=None, ground=None, max_pulses=36, tags='auto'):
             W(n, p, q)
             p = q; d = _perp(rng, d)
         for w in wires: flip(w)
+    elif family == 'gapped':
+        # two collinear wires whose facing ends are close but NOT joined (5..20 x the matching tolerance)
+        n1, n2 = rng.randint(2, 6), rng.randint(2, 6)
+        d = _unit(rng)
+        e1 = _add(org, d, n1 * seglen)
+        gap = seglen * rng.choice([0.005, 0.02])
+        s2 = _add(e1, d, gap)
+        W(n1, org, e1, r=seglen / 100); W(n2, s2, _add(s2, d, n2 * seglen), r=seglen / 100)
+        for w in wires: flip(w)
+    elif family == 'taperjoin':
+        # a tapered wire (first and last segments differ) with a second wire joined to one of its ends,
+        # all four end-to-end combinations and both orders
+        n1, n2 = rng.randint(3, 7), rng.randint(2, 5)
+        d1 = _unit(rng); d2 = _perp(rng, d1)
+        a = org; b = _add(org, d1, n1 * seglen)
+        W(n1, a, b, r=seglen / 150); wires[-1]['taper'] = [rng.choice([1, 2]), None, None]
+        j = rng.choice([a, b])
+        W(n2, j, _add(j, d2, n2 * seglen * rng.uniform(0.8, 1.3)), r=seglen / 80)
+        for w in wires: flip(w)
+        if rng.random() < 0.5: wires.reverse()
     elif family == 'mono':
         n = rng.randint(2, 10)
         W(n, org, _add(org, [0, 0, 1], n * seglen))
